@@ -896,7 +896,7 @@ def extract_simplifier(high, low, val):
 
             # avoid extracting if we need the full value
             if new_high == result.length - 1 and low_loc == 0:
-                return result, True
+                return result
 
             # else extract the part we need
             return result[new_high:low_loc]
